@@ -10,11 +10,12 @@ func init() {
 	register(&Prop{
 		ID:        "C37",
 		Level:     "other",
-		Technique: "sibling agreement of the carrier's Get/Set scans (direction, match test, first-match action), field map of Set's two arms and of Keys, wiring rules of the producer/consumer hooks, capacity-cap rule for fetched header slices",
+		Technique: "sibling agreement of the carrier's Get/Set scans (direction, match test, first-match action), field map of Set's two arms and of Keys, wiring rules of the producer/consumer hooks, capacity-cap rule for fetched header slices; forward may-dataflow (origin/stale bits of slice-typed locals over the CFG) proving that the kmsg decoders reslice a reused slice to [:0] on every path before storing it back",
 		Explanation: "(1) RecordCarrier.Get and Set both scan record.Headers with an ascending range loop and act on the first element whose Key == key: Get returns its value, Set overwrites Headers[i].Value with []byte(val) and returns; Set appends {Key: key, Value: []byte(val)} only after the loop found nothing, and touches no other header; Keys returns one entry per header in order; " +
 			"(2) wiring: Tracer.OnProduceRecordBuffered injects with t.propagators.Inject(ctx, NewRecordCarrier(r)) and Tracer.OnFetchRecordBuffered extracts with t.propagators.Extract(r.Context, NewRecordCarrier(r)) on the hook's own record, NewRecordCarrier wraps exactly the record it is given; " +
-			"(3) a fetched record's header slice is carved from the per-batch slab with its capacity capped to its length ((*hslab)[:n:n]), so that Set's append on one fetched record cannot overwrite the next record's header.",
-		NotDecided: "that headers survive produce/fetch unchanged (C06/C18) and the propagator's own behaviour.",
+			"(3) a fetched record's header slice is carved from the per-batch slab with its capacity capped to its length ((*hslab)[:n:n]), so that Set's append on one fetched record cannot overwrite the next record's header; " +
+			"(4) rule decoder-truncates-reused-slice (pkg/kmsg): in every kmsg function that stores a slice into a struct field, a value derived through local variables from reading a slice field (the reused destination slice: `v := s.Headers; a := v`) must have passed a reslice-to-zero `x[:0]` on EVERY path before it is stored back (`s.Headers = v`); append() and non-zero reslices propagate staleness, fresh values (make, nil, literals, calls) clear it. Record.readFrom's store to Record.Headers is an explicit obligation (kgo recycles kmsg.Records through PoolKRecords with full-length Headers and relies on this truncation, so a header-less record must decode to no headers for carrier.Keys/Get), the same obligation is checked for all ~425 array fields of the generated decoders.",
+		NotDecided: "that header bytes survive produce/fetch unchanged (C06/C18) and the propagator's own behaviour; decoders that resize the destination slice in place to the wire count without a local alias (hand-written StickyMemberMetadata.readFrom: 4 stores, counted in the evidence as in_place_resize_stores_not_covered) are outside rule (4); a reused slice resliced with a non-constant bound (a[:l]) is reported undecided, not proven; functions containing closures are skipped by rule (4) (none today; undecided if it is the record decoder); that every element of the re-grown slice is overwritten is C15/C16's concern.",
 		Run:        runC37,
 	})
 }
@@ -50,6 +51,7 @@ func runC37(c *Ctx) {
 			c.Check(n == 1, "fetched-headers-capacity-capped", f.Key+"#slab-carve", f.Pos(), r, "", "header slab carve not found")
 		}
 	}
+	c37kmsgDecoder(c)
 }
 
 func c37carrier(c *Ctx, m *Module) {
